@@ -271,7 +271,13 @@ func (sc *schedScenario) explore(t *testing.T, j *vlib.Job, r *vlib.Result) {
 		ShardDepth: j.Int("shard_depth", 2),
 		Deadline:   j.Deadline(start),
 		StopOnViol: true,
-		Run:        func(prefix []int) *sched.Exec { return sc.runOne(t, j, prefix) },
+		Run: func(prefix []int) *sched.Exec {
+			x := sc.runOne(t, j, prefix)
+			if os.Getenv("VERIF_DEBUG") != "" {
+				fmt.Printf("EXEC %v -> %s | %s\n", prefix, x.S.TraceString(), x.Outcome)
+			}
+			return x
+		},
 	}
 	e.Explore()
 	r.Evaluations += int64(e.Execs)
